@@ -20,7 +20,7 @@ RULE = ("(a) rank / null spaces: m x n matrices (1..6 quick, 1..9 thorough) of e
 ASSUMPTIONS = ["constant c = 1e3 in all relative bounds; LAPACK on the complex adjoint is the singular-value / eigenvalue oracle",
                "rank cases with an oracle singular value within a factor 8 of eps*max(m,n)*s_1 are skipped as ambiguous, never judged"]
 SHARDS = {"quick": 8, "thorough": 16}
-DECIDING = ["rank:ground_truth", "rank:oracle_threshold", "rank:quarter_real_rank", "rank:herm_invariant", "rank:invertible_invariant",
+DECIDING = ["rank:ground_truth", "rank:oracle_threshold", "rank:explicit_tol", "rank:quarter_real_rank", "rank:herm_invariant", "rank:invertible_invariant",
             "null:column_count", "null:annihilated", "null:independent", "null:aliases_identical",
             "det:dieudonne_value", "det:multiplicative", "det:zero_iff_singular", "det:moore_value"]
 MUST_REACH = ["rank:zero_matrix", "null:nullity>=2:right", "null:nullity>=2:left", "null:full_rank_empty", "det:singular"]
@@ -136,6 +136,36 @@ def judge_rank(ctx, R, A, r_true, site, tags):
     except Exception as e:
         rh = repr(e)
     ctx.check("rank:herm_invariant", rh == rk, site=site, tags=tags, detail={"rank": rk, "rank_H": rh})
+    # explicit tolerance (absolute, as documented: "singular values above the tolerance"): placed at the geometric mean of two well-separated
+    # oracle singular values, above the largest, and far below the smallest non-zero one; keyword, positional and numpy-scalar forms
+    sp = [float(v) for v in s if v > thr * 64]
+    cuts = []
+    for i in range(len(sp) - 1):
+        if sp[i] > 4.0 * sp[i + 1]:
+            cuts.append((float(np.sqrt(sp[i] * sp[i + 1])), i + 1, "between"))
+    if sp:
+        cuts.append((2.0 * sp[0], 0, "above_largest"))
+        if len(sp) == len(s) or (len(s) > len(sp) and s[len(sp)] < sp[-1] * 1e-6):
+            cuts.append((sp[-1] * 1e-3, len(sp), "below_smallest_nonzero"))
+    for ci, (t, expect, lab) in enumerate(cuts[:4]):
+        form = ["keyword", "positional", "np.float64", "np.float32"][(ci + len(sp)) % 4]
+        try:
+            if form == "keyword":
+                rt = U.rank(A, tol=t)
+            elif form == "positional":
+                rt = U.rank(A, t)
+            elif form == "np.float64":
+                rt = U.rank(A, tol=np.float64(t))
+            else:
+                t = float(np.float32(t))
+                rt = U.rank(A, tol=np.float32(t))
+        except Exception as e:
+            ctx.check("unexpected_exception", False, site=site + ":rank(tol)", tags=tags, detail={"exception": repr(e), "tol": t})
+            continue
+        ctx.hit("callform:rank_tol_" + form)
+        ctx.hit("rank_tol:" + lab)
+        ctx.check("rank:explicit_tol", rt == int(np.sum(s > t)) and rt == expect, site=site + ":" + lab, tags=tags,
+                  detail={"rank": rt, "tol": t, "svals": s, "expected": expect})
     return rk
 
 
